@@ -753,6 +753,18 @@ def b_abs(I, args, kwargs):
     return SInt(z3.If(t < 0, -t, t))
 
 
+def b_divmod(I, args, kwargs):
+    import ast as _ast
+
+    a, b = args
+    if not isinstance(a, Sym) and not isinstance(b, Sym):
+        try:
+            return divmod(a, b)
+        except ZeroDivisionError as e:
+            raise PyRaise(e)
+    return (I._int_binop(_ast.FloorDiv(), a, b), I._int_binop(_ast.Mod(), a, b))
+
+
 class SetIter:
     def __init__(self, s):
         self.s = s
@@ -1167,7 +1179,7 @@ BUILTIN_TYPE_MODELS = {}
 def builtin_table(I):
     tbl = {
         "len": b_len, "bytes": b_bytes, "bytearray": b_bytearray, "isinstance": b_isinstance, "type": b_type,
-        "range": b_range, "min": b_minmax("min"), "max": b_minmax("max"), "abs": b_abs, "next": b_next,
+        "range": b_range, "min": b_minmax("min"), "max": b_minmax("max"), "abs": b_abs, "divmod": b_divmod, "next": b_next,
         "iter": b_iter, "enumerate": b_enumerate, "zip": b_zip, "list": b_list, "tuple": b_tuple, "dict": b_dict, "set": b_set,
         "any": b_any, "all": b_all, "callable": b_callable, "getattr": b_getattr, "hasattr": b_hasattr,
         "int": b_int, "bool": b_bool, "str": b_str, "repr": b_repr, "hash": b_hash, "id": b_id,
@@ -1209,6 +1221,10 @@ def method_model(I, key, self_, args, kwargs):
         from . import smap
 
         return smap.sset_method(I, self_, name, args, kwargs)
+    if kind == "slist":
+        from . import smap as _sm
+
+        return _sm.slist_method(I, self_, name, args, kwargs)
     if kind == "scoll":
         from . import smap
 
